@@ -24,6 +24,10 @@ func (t *Type) Enum(cfg *enum.Config) *Enum {
 }
 
 func loadEnum(t *types.Named, cfg *enum.Config) *Enum {
+	if t.Obj().Pkg() == nil {
+		// universe types like error are never enums
+		return disabled
+	}
 	path := t.Obj().Pkg().Path()
 	name := t.Obj().Name()
 
